@@ -764,6 +764,7 @@ func workerMain(j *job) {
 		res.Outcomes[ic.kind+"->"+outcome]++
 		if acc {
 			res.Accepted++
+			binary.LittleEndian.PutUint64(mk.m[markerSize-8:], uint64(res.Accepted))
 			h := fnv.New64a()
 			h.Write([]byte(c.name))
 			h.Write(ic.input)
@@ -864,6 +865,7 @@ func runShard(r *vk.Run, j job, deadline time.Time) shardOutcome {
 	for {
 		os.Remove(base + ".result")
 		binary.LittleEndian.PutUint64(mk.m[0:], 0)
+		binary.LittleEndian.PutUint64(mk.m[markerSize-8:], 0)
 		j.Deadline = deadline.Unix()
 		jb, _ := json.Marshal(j)
 		cmd := exec.Command(os.Args[0], "-test.run", "^TestCheck$", "-test.timeout", "0")
@@ -970,6 +972,8 @@ func runShard(r *vk.Run, j job, deadline time.Time) shardOutcome {
 		so.findings = append(so.findings, finding{Key: key, Mode: mode, Codec: j.Codec, Kind: ic.kind, Oracle: oracle, Label: label, Input: clip(ic.input), Seed: clip(ic.seed), Offset: ic.off, Detail: detail,
 			Pkg: func() string { if c != nil { return c.pkg }; return "" }()})
 		so.res.Evals += idx + 1 - int64(j.Start)
+		so.res.Accepted += int64(binary.LittleEndian.Uint64(mk.m[markerSize-8:]))
+		fmt.Printf("worker %s shard %d/%d %s at input #%d (%s, offset %d): %s\n", j.Codec, j.Shard, j.NShards, oracle, idx, ic.kind, ic.off, short(hx(ic.input), 160))
 		so.restarts++
 		j.Start = int(idx) + 1
 		j.SkipBig = true
